@@ -46,6 +46,7 @@ RULE = ('exhaustive small spaces first: every block layout (zoo.layouts_for) of 
         'explicit fill_value), one-axis-disjoint Frames, functions through apply; bloc keys as Boolean array / reindexed Boolean Frame x element / array / '
         'Frame / coordinate Series; loc and getitem forms are derived from the positional key (labels, label slices, Boolean arrays, reordered Boolean '
         'Series); Series: every key kind incl. the slice grid on lengths 0..4; relabel / rename / insert_before / insert_after on Frame and Series; a '
+        'every interface also on FrameGO receivers with the "nothing to do" shortcuts (empty keys, drop of nothing, astype of no column, identity relabel, same name, insertion of an empty Series / a column-less Frame): result is a new container by identity, shares no _blocks / _columns object, equals the static Frame\'s result, and growing result or receiver in place leaves the other untouched; Frame values of assign have blocks of different dtype and width in both orders; assign.bloc with coordinate Series / apply on every layout with a distinct value per cell; a '
         'malformed stream (out-of-range positions, absent labels, wrong mask length, step 0, wrong value shape: must raise, receiver untouched); a seeded '
         'random stream of 3..7-column mixed-dtype frames; kernel strata: util.slice_to_ascending_slice and TypeBlocks._cols_to_slice on exhaustive grids '
         'against the regenerated Gallina. A case is non-trivial when the key addresses at least one cell; distinct = distinct (call, frame, layout, key, value).')
@@ -693,7 +694,17 @@ def form_call(f, iface, form, rk, ck, rlabels, clabels, reorder=False):
     raise ValueError(form)
 
 
-def labelled_value(kind, f, rps, cps, partial):
+def hetero_cell(kind, j, i):
+    if kind == 'i':
+        return 700 + 10 * j + i
+    if kind == 'f':
+        return 700 + 10 * j + i + 0.5
+    if kind == 's1':
+        return 'abcdefg'[(i + j) % 7]
+    return f'long{j}{i}'
+
+
+def labelled_value(kind, f, rps, cps, partial, hetero=0):
     """a Series / Frame value whose labels partially overlap the target's, reordered, plus one foreign label;
     returns (python value, Coq aval)"""
     import static_frame as sf
@@ -714,7 +725,10 @@ def labelled_value(kind, f, rps, cps, partial):
             ridx = ['q', 'p']
         if kind == 'frame_nocols':
             cidx = ['k']
-        cols = [[700 + 10 * j + i for i in range(len(ridx))] for j in range(len(cidx))]
+        # hetero: the value's columns (= its blocks) differ in dtype and width, narrow first (1) or wide first (2): the
+        # by-blocks walk must resolve the dtype of a target over ALL the value blocks it receives
+        kinds = {0: ['i'], 1: ['i', 'f', 's1', 's5'], 2: ['s5', 's1', 'f', 'i']}[hetero]
+        cols = [[hetero_cell(kinds[j % len(kinds)], j, i) for i in range(len(ridx))] for j in range(len(cidx))]
         fr = sf.Frame.from_fields(cols, index=ridx, columns=cidx)
         return fr, f'(AFrame {lit.vlist(ridx)} {lit.vlist(cidx)} {lit.lst([lit.vlist(c) for c in cols])})'
     raise ValueError(kind)
@@ -727,14 +741,14 @@ def container_aval(v):
     raise ValueError
 
 
-def _labelled_case(ctx, f, oflit, pname, m, nrows, layout, vkind, rk, ck, rps, cps, form, fn, text, partial, fill):
+def _labelled_case(ctx, f, oflit, pname, m, nrows, layout, vkind, rk, ck, rps, cps, form, fn, text, partial, fill, hetero=0):
     # the value is aligned to the target by label; rows in key order, columns in ascending order
-    value, aval = labelled_value(vkind, f, rps, sorted(cps), partial)
+    value, aval = labelled_value(vkind, f, rps, sorted(cps), partial, hetero)
     before = snapshot(f)
     out, err = call(lambda: fn()(value, fill_value=fill[0]))
     after = snapshot(f)
     tags = assign_tags(form, ck, rk, m, form == 'iloc' and ck.kind == 'mask')
-    tags['value'] = vkind
+    tags['value'] = vkind + (f'/hetero{hetero}' if hetero else '')
     # Frame values disjoint from the target on ONE axis were mis-assigned until fix 658b4ce (resize_blocks): regression cases
     ctx.count(f'assign:value={vkind}', f'assign:form={form}', 'outcome:' + ('ok' if err is None else lit.err_class(err)))
     sterm = f'S_frame_assign_ok {oflit} {rk.ocoq()} {ck.ocoq()} {aval} {fill[1]} {oframe_lit(out)}' if err is None else 'false'
@@ -791,7 +805,10 @@ def assign_labelled_cases(ctx):
                 elif form != 'getitem' and vkind in ('series_rows', 'series_cols', 'frame'):
                     variants = variants[rot % 2:][:1]
                 for partial, fill in variants:
-                    yield from _labelled_case(ctx, f, oflit, pname, m, nrows, layout, vkind, rk, ck, rps, cps, form, fn, text, partial, fill)
+                    # Frame values: blocks of different dtype / width, in both orders (homogeneous ones too in the thorough tier)
+                    heteros = (0,) if vkind != 'frame' else ((1, 2) if ctx.tier == 'quick' else (0, 1, 2))
+                    for hetero in heteros:
+                        yield from _labelled_case(ctx, f, oflit, pname, m, nrows, layout, vkind, rk, ck, rps, cps, form, fn, text, partial, fill, hetero)
         # ---- apply: the function sees the selection, its result is assigned back aligned by label
         funcs = [('double', lambda x: x * 2), ('reversed', lambda x: x.iloc[::-1] if hasattr(x, 'iloc') else x),
                  ('tail', lambda x: x.iloc[1:] if hasattr(x, 'iloc') else x)]
@@ -876,6 +893,45 @@ def assign_forms_cases(ctx):
                                 'observed': 'raises ' + type(err).__name__ if err is not None else out.values.tolist()},
                                s=sterm, py_fail=None if before == after else 'receiver changed by ' + text, tags=tags,
                                nontrivial=bool(cps) and bool(rps))
+
+
+def assign_bloc_coordinate_cases(ctx):
+    """assign.bloc[key](Series of (row label, column label) -> value) and assign.bloc[key].apply(func) over EVERY block
+    layout, distinct value per cell (the by-coordinate walk must add the block's column offset)"""
+    import static_frame as sf
+    nrows = 3
+    for pname, dts, layout, level in frame_universe(ctx):
+        m = len(dts)
+        if m == 0 or pname == 'S':
+            continue
+        f = build_frame(dts, nrows, layout)
+        oflit = oframe_lit(f)
+        rl, cl = list(f.index.values), list(f.columns.values)
+        patterns = [[[(i + j) % 2 == 0 for i in range(nrows)] for j in range(m)],
+                    [[True] * nrows for j in range(m)],
+                    [[j == m - 1 and i != 1 for i in range(nrows)] for j in range(m)]]
+        for mask in patterns:
+            key = np.array(mask, dtype=bool).T.reshape(nrows, m)
+            pairs = [((rl[i], cl[j]), 1000 + 10 * j + i) for j in range(m) for i in range(nrows) if mask[j][i]][::-1]
+            sv = sf.Series([v for _, v in pairs], index=sf.Index([k for k, _ in pairs], dtype=object))
+            smat = [[1000 + 10 * j + i for i in range(nrows)] for j in range(m)]
+            func = (lambda x: x.iloc[::-1])
+            cur = [[_cell(dts[j], i, j) for i in range(nrows)] for j in range(m)]
+            for vname, run, vmat in [('series', lambda: f.assign.bloc[key.copy()](sv), smat),
+                                     ('apply', lambda: f.assign.bloc[key.copy()].apply(func), cur)]:
+                before = snapshot(f)
+                out, err = call(run)
+                after = snapshot(f)
+                ctx.count('assign:bloc-coordinate=' + vname, 'outcome:' + ('ok' if err is None else lit.err_class(err)))
+                klit = lit.lst([lit.lst([lit.b(x) for x in col]) for col in mask])
+                vlit = lit.lst([lit.vlist(col) for col in vmat])
+                sterm = f'S_frame_bloc_ok {oflit} {klit} {klit} {vlit} {oframe_lit(out)}' if err is None else 'false'
+                yield Case('api:frame.assign.bloc(coordinate)',
+                           {'pool': pname, 'columns': m, 'rows': nrows, 'layout': zoo.layout_str(layout),
+                            'call': 'f.assign.bloc[key](coordinate Series)' if vname == 'series' else 'f.assign.bloc[key].apply(reverse)',
+                            'key': np.array(mask).T.tolist(), 'observed': 'raises ' + type(err).__name__ if err is not None else out.values.tolist()},
+                           s=sterm, py_fail=None if before == after else 'receiver changed by f.assign.bloc',
+                           tags=bloc_tags(vname, 'array', layout, mask), nontrivial=any(any(c) for c in mask))
 
 
 F_BLOCBLOCK = 'C08-bloc-assign-coerces-whole-block'
@@ -1306,6 +1362,100 @@ def series_cases(ctx):
                                s=sterm, py_fail=None if before == after else f'receiver changed by s.{meth}', tags={'op': meth, 'container': 'series'})
 
 
+# ---------------------------------------------------------------------------------------------- new container: identity / aliasing
+def go_alias_cases(ctx):
+    """every functional-update interface on a grow-only receiver (FrameGO) and on a static Frame, including the
+    'nothing to do' shortcuts (empty key, drop of nothing, astype of no column, identity relabel, same name, insertion of an
+    empty Series / of a Frame without columns): the result must be a NEW container -- not the receiver, no shared
+    _blocks / _columns object when the receiver can grow -- its content must equal what the static Frame gives (which the
+    other strata check against S), and growing the result in place must leave the receiver as it was (and vice versa)"""
+    import static_frame as sf
+    nrows = 3
+    for pname, dts, layout in label_frames(ctx, ms=(1, 3)):
+        m = len(dts)
+        rl, cl = list(ROW_LABELS[:nrows]), list(COL_LABELS[:m])
+        empty_series = sf.Series((), index=(), name='e')
+        full_series = sf.Series([1.5, 2.5, 3.5], index=rl, name='n1')
+        no_cols = sf.Frame(index=sf.Index(rl))                       # rows, zero columns
+        one_col = sf.Frame.from_fields([[7, 8, 9]], index=rl, columns=['u'])
+        none_mask = np.zeros(m, dtype=bool)
+        bkey = np.zeros((nrows, m), dtype=bool)
+        bkey1 = bkey.copy(); bkey1[0, 0] = True
+        ops = [
+            ('assign.iloc[0,0](9)', lambda f: f.assign.iloc[0, 0](9)),
+            ('assign[[]](9)', lambda f: f.assign[[]](9)),
+            ('assign.iloc[[], :](9)', lambda f: f.assign.iloc[[], :](9)),
+            ('assign.loc[:, none](9)', lambda f: f.assign.loc[:, none_mask](9)),
+            ('assign.bloc[none](9)', lambda f: f.assign.bloc[bkey.copy()](9)),
+            ('assign.bloc[one](9)', lambda f: f.assign.bloc[bkey1.copy()](9)),
+            ('assign[a].apply(id)', lambda f: f.assign[cl[0]].apply(lambda x: x)),
+            ('drop[a]', lambda f: f.drop[cl[0]]),
+            ('drop[[]]', lambda f: f.drop[[]]),
+            ('drop.iloc[[]]', lambda f: f.drop.iloc[[]]),
+            ('drop.loc[none rows]', lambda f: f.drop.loc[np.zeros(nrows, dtype=bool)]),
+            ('mask[a]', lambda f: f.mask[cl[0]]),
+            ('mask[[]]', lambda f: f.mask[[]]),
+            ('astype[a](object)', lambda f: f.astype[cl[0]](object)),
+            ('astype[[]](float)', lambda f: f.astype[[]](float)),
+            ('astype[a](same dtype)', lambda f: f.astype[cl[0]](f._blocks._dtypes[0])),
+            ('astype({})', lambda f: f.astype({})),
+            ('relabel(identity)', lambda f: f.relabel(index=lambda l: l, columns=lambda l: l)),
+            ('relabel(index mapping {})', lambda f: f.relabel(index={})),
+            ('relabel(columns)', lambda f: f.relabel(columns=lambda l: l + l)),
+            ('rename(same)', lambda f: f.rename(f.name)),
+            ('rename()', lambda f: f.rename()),
+            ('rename(new)', lambda f: f.rename('other')),
+            ('insert_before(a, Series)', lambda f: f.insert_before(cl[0], full_series)),
+            ('insert_after(last, Frame)', lambda f: f.insert_after(cl[-1], one_col)),
+            ('insert_before(a, empty Series)', lambda f: f.insert_before(cl[0], empty_series)),
+            ('insert_after(a, empty Series)', lambda f: f.insert_after(cl[0], empty_series)),
+            ('insert_before(a, Frame without columns)', lambda f: f.insert_before(cl[0], no_cols)),
+            ('insert_after(last, Frame without columns)', lambda f: f.insert_after(cl[-1], no_cols)),
+        ]
+        for oname, op in ops:
+            static = build_frame(dts, nrows, layout)
+            want, werr = call(lambda: op(static))
+            for cls_name in ('FrameGO', 'Frame'):
+                f = build_frame(dts, nrows, layout, cls=getattr(sf, cls_name))
+                before = snapshot(f)
+                out, err = call(lambda: op(f))
+                problems = []
+                if (err is None) != (werr is None):
+                    problems.append(f'{cls_name} receiver: {"raises " + type(err).__name__ if err else "returns"}, static Frame: {"raises " + type(werr).__name__ if werr else "returns"}')
+                elif err is None:
+                    if snapshot(out)[1] != snapshot(want)[1]:
+                        problems.append(f'content differs from what the static Frame receiver gives')
+                    if cls_name == 'FrameGO':
+                        if out is f:
+                            problems.append('the receiver itself is returned (not a new container)')
+                        if out._blocks is f._blocks or out._columns is f._columns:
+                            problems.append('result shares its _blocks / _columns object with the receiver')
+                        if out.__class__ is not f.__class__:
+                            problems.append(f'result class {out.__class__.__name__}')
+                        # grow the result in place: the receiver must not notice
+                        if isinstance(out, sf.FrameGO):
+                            out_before = snapshot(out)
+                            out['__grown__'] = np.arange(len(out.index))
+                            if snapshot(f) != before:
+                                problems.append('growing the RESULT in place changed the receiver')
+                            f2 = build_frame(dts, nrows, layout, cls=sf.FrameGO)
+                            out2 = op(f2)
+                            out2_before = snapshot(out2)
+                            f2['__grown__'] = np.arange(nrows)
+                            if snapshot(out2) != out2_before:
+                                problems.append('growing the RECEIVER in place changed the result')
+                    elif snapshot(f) != before:
+                        problems.append('receiver changed')
+                if err is None and cls_name == 'Frame' and snapshot(f) != before:
+                    problems.append('receiver changed')
+                ctx.count(f'alias:{cls_name}', 'outcome:' + ('ok' if err is None else lit.err_class(err)))
+                yield Case(f'api:{cls_name.lower()}.new-container',
+                           {'receiver': cls_name, 'pool': pname, 'columns': m, 'layout': zoo.layout_str(layout), 'call': 'f.' + oname,
+                            'observed': 'raises ' + type(err).__name__ if err is not None else [lit.labels(out.columns), list(out.shape)]},
+                           py_fail='; '.join(problems) or None, tags={'op': oname.split('(')[0].split('[')[0], 'receiver': cls_name, 'alias': True},
+                           nontrivial=cls_name == 'FrameGO')
+
+
 # ---------------------------------------------------------------------------------------------- malformed keys / values
 def malformed_cases(ctx):
     """inputs outside the domain: out-of-range positions, absent labels, wrong mask length, step 0, value of the wrong
@@ -1552,6 +1702,8 @@ def cases(ctx):
     yield from assign_labelled_cases(ctx)
     yield from assign_forms_cases(ctx)
     yield from assign_bloc_cases(ctx)
+    yield from assign_bloc_coordinate_cases(ctx)
+    yield from go_alias_cases(ctx)
     yield from drop_mask_forms_cases(ctx)
     yield from astype_cases(ctx)
     yield from insert_cases(ctx)
